@@ -257,8 +257,7 @@ namespace smt
         ORATIO_VERIF_WRAP(new_at_most_one(ls), def_bool(*this, "amo", ls, vr_));
         assert(root_level());
         // we try to avoid creating a new variable..
-        std::sort(ls.begin(), ls.end(), [](const auto &l0, const auto &l1)
-                  { return variable(l0) < variable(l1); });
+        std::sort(ls.begin(), ls.end()); // equal literals become adjacent..
         lit p;
         size_t lits_size = 0;
         bool found_true = false;
@@ -341,8 +340,7 @@ namespace smt
         ORATIO_VERIF_WRAP(new_exct_one(ls), def_bool(*this, "exo", ls, vr_));
         assert(root_level());
         // we try to avoid creating a new variable..
-        std::sort(ls.begin(), ls.end(), [](const auto &l0, const auto &l1)
-                  { return variable(l0) < variable(l1); });
+        std::sort(ls.begin(), ls.end()); // equal literals become adjacent..
         lit p;
         size_t j = 0;
         bool found_true = false;
